@@ -227,6 +227,38 @@ def adsorbate(draw, metal='Pt', max_heavy=6, extra=True):
     return Chem.MolToSmiles(mol)
 
 
+@st.composite
+def alkene(draw):
+    """alkenes with explicit cis/trans marks, incl. long chains (atom indices >= 9 and >= 17 on the double bond's
+    neighbours), di-/tri-substituted, dienes"""
+    def chain(n):
+        s = 'C' * n
+        if n >= 3 and draw(st.integers(0, 3)) == 0:
+            k = draw(st.integers(1, n - 1))
+            s = s[:k] + '(C)' + s[k:]
+        if draw(st.integers(0, 5)) == 0:
+            s = s + 'O'
+        return s
+    a, b = draw(st.sampled_from([1, 1, 2, 3, 5, 8, 12, 17])), draw(st.sampled_from([1, 1, 2, 4, 7, 9, 16]))
+    m1, m2 = draw(st.sampled_from(['/', '\\', ''])), draw(st.sampled_from(['/', '\\', '']))
+    left, right = chain(a), chain(b)
+    kind = draw(st.sampled_from(['di', 'di', 'tri', 'diene', 'ring']))
+    if kind == 'di':
+        smi = '%s%sC=C%s%s' % (left, m1, m2, right)
+    elif kind == 'tri':
+        smi = '%s%sC(C)=C%s%s' % (left, m1, m2, right)
+    elif kind == 'diene':
+        smi = '%s%sC=C%sC=C%s%s' % (left, m1, m2, m1, right)
+    else:
+        smi = '%s%sC=C%sC1CCCC1' % (left, m1, m2)
+    mol = Chem.MolFromSmiles(smi)
+    if mol is None:
+        return 'C/C=C\\C'
+    if draw(st.booleans()):
+        return smi                      # as written (non-canonical atom order: the double bond sits at high indices)
+    return Chem.MolToSmiles(mol)
+
+
 SPECIAL = ['[H][H]', '[HH]', 'O', 'C', 'O=C=O', '[C-]#[O+]', 'C=O', 'CO', 'OO', 'O=O', '[H]', '[OH]', '[CH3]', '[CH2]',
            'C#C', 'C=C', 'C=C=C', 'C=C=C=C', 'CC(C)(C)C', 'CC(C)C(C)C', 'CC(C)(C)C(C)(C)C', 'C1CC1', 'C1CCC1', 'C1CCCCC1',
            'C1CC2CC1C2', 'C1CCC2(C1)CCC2', 'OC(=O)C', 'COC(=O)C', 'CC(=O)C', 'CC=O', 'OCCO', 'C1CO1', 'COC', 'COOC']
@@ -245,6 +277,7 @@ def oov():
 def family(name, metal='Pt', max_heavy=12):
     return {
         'gas': gas(max_heavy),
+        'alkene': alkene(),
         'aromatic': aromatic(),
         'radical': radical(),
         'adsorbate': adsorbate(metal),
